@@ -6,6 +6,7 @@ import (
 	"fmt"
 	"go/token"
 	"go/types"
+	"sort"
 	"strings"
 
 	"golang.org/x/tools/go/ssa"
@@ -40,6 +41,7 @@ func (e *Eng) encodeFunction(fn *ssa.Function, con *Contract) (res *FnResult) {
 	for _, b := range fn.Blocks {
 		res.NInst += len(b.Instrs)
 	}
+	f.ixWrap = con.EMatch
 	// entry state
 	st := &State{locals: map[*ssa.Alloc][]string{}, heaps: map[string]string{}}
 	for _, so := range allClasses {
@@ -73,6 +75,12 @@ func (e *Eng) encodeFunction(fn *ssa.Function, con *Contract) (res *FnResult) {
 	}
 	for _, rq := range con.Requires {
 		c.assume("true", f.evalClause(preEnv(), rq))
+	}
+	if fn.Pkg != nil {
+		for _, g := range e.globalInvs[fn.Pkg.Pkg.Path()] {
+			c.assume("true", f.evalClause(preEnv(), g))
+			c.trusted["package-level invariant (established by package initialisation; variable never reassigned): "+g.Text] = true
+		}
 	}
 	for _, as := range con.Assumes {
 		c.assume("true", f.evalClause(preEnv(), as))
@@ -139,11 +147,21 @@ func (e *Eng) encodeFunction(fn *ssa.Function, con *Contract) (res *FnResult) {
 				watch = append(watch, WatchTerm{Text: w, Terms: v.L})
 			}()
 		}
+		proved := map[string][]string{} // label -> formulas already emitted at this return site
 		for i, en := range con.Ensures {
 			label := en.Label
 			if label == "" {
 				label = fmt.Sprint(i + 1)
 			}
+			var hyps []string
+			for _, pre := range con.Uses[label] {
+				for l, fs := range proved {
+					if strings.HasPrefix(l, pre) {
+						hyps = append(hyps, fs...)
+					}
+				}
+			}
+			sort.Strings(hyps)
 			parts := splitConj(en.E)
 			for pi, part := range parts {
 				pl := label
@@ -153,6 +171,7 @@ func (e *Eng) encodeFunction(fn *ssa.Function, con *Contract) (res *FnResult) {
 				sub := en
 				sub.E = part
 				formula := f.evalClause(mkEnv(), sub)
+				proved[label] = append(proved[label], formula)
 				// known findings: the obligation is split by witness class
 				var ws []string
 				for _, fd := range e.findingsFor(res.Key + "/ensures:" + label) {
@@ -168,7 +187,7 @@ func (e *Eng) encodeFunction(fn *ssa.Function, con *Contract) (res *FnResult) {
 					formula = implies(not(or(ws...)), formula)
 				}
 				c.oblige(Item{Guard: r.guard, Formula: formula, Name: res.Key + "/ensures:" + pl + suffix, Class: "ensures",
-					Pos: f.pos(r.pos), Text: en.Text, Replay: f.replayInfo(r.results, cur), Watch: watch})
+					Pos: f.pos(r.pos), Text: en.Text, Replay: f.replayInfo(r.results, cur), Watch: watch, Hyps: hyps})
 			}
 		}
 		if con.HasMod && !con.ModAll {
